@@ -351,8 +351,11 @@ type c07Desc struct {
 
 func runRenderCase(ts TableSpec) CaseOut {
 	t := tabular.New()
-	ts.Build(t)
-	v := extractView(t)
+	// the table is built and rendered (through a wrapper reused across staged
+	// renders when the spec has stages); the view it is judged against is
+	// computed from the spec, not read back from the table
+	o := ts.BuildRender(t, func(t tabular.Table) func() (string, error) { w := tjson.Wrap(t); return w.Render })
+	v := ts.SpecView()
 	enc := func(s string) string {
 		b, err := json.Marshal(s)
 		if err != nil {
@@ -388,7 +391,6 @@ func runRenderCase(ts TableSpec) CaseOut {
 		}
 		fbs[i] = cqList(es)
 	}
-	o := capture(func() (string, error) { return tjson.Render(t) })
 	d := c07Desc{Outcome: o}
 	switch o.Kind {
 	case "ok":
